@@ -106,7 +106,7 @@ def run(ctx, scale=1):
                          '(on the line / in the plane / through the point / parallel / free, plus sub-segments and sub-half-lines of the carrier); for polygon and '
                          'polyhedron containers the candidate is built from feature points (vertex, edge, face, interior, outside at offset >= 1/4); '
                          'non-trivial = contained, or constructed in a degenerate relation')
-    ctx.extra['unproved'] = ['K5 Polyhedron.mem_iff_hull (contains ⊆ hull)']
+    ctx.extra['unproved'] = ['none under Polyhedron.Valid; that a constructed body is Valid is judged per body by the Lean procedure validB (proved sound)']
     total = ctx.n(9000, 300000) * scale
     cases = []
     for part in core.pmap(work, core.chunks(ctx, total, per=300)):
